@@ -71,12 +71,21 @@ def run(ctx) -> None:
     ctx.analysed(row)
 
     def shape(f):
-        src = [n for n in walk_no_nested(f.node) if isinstance(n, ast.Assign) and norm(n.targets[0]) == "tag_values"]
-        pred = [norm(c) for c in ast.walk(f.node) if isinstance(c, ast.Compare) and "None" in norm(c) and ("val" in norm(c))]
-        return (norm(src[0].value) if src else None, sorted(set(pred)))
+        # the tag sequence: the first local assigned from an expression over self.tags / the tag collection; the omission predicate:
+        # every `<x> is [not] None` comparison, with local names replaced by a placeholder (role, not name)
+        import copy
+
+        class _Ph(ast.NodeTransformer):
+            def visit_Name(self, nn):
+                return nn if nn.id == "self" else ast.Name(id="_", ctx=nn.ctx)
+        src = [n for n in walk_no_nested(f.node) if isinstance(n, ast.Assign) and isinstance(n.targets[0], ast.Name)
+               and isinstance(n.value, (ast.ListComp, ast.GeneratorExp, ast.Call)) and ".archive()" in norm(n.value)]
+        pred = [norm(_Ph().visit(copy.deepcopy(i))) for c in ast.walk(f.node) if isinstance(c, (ast.ListComp, ast.GeneratorExp))
+                for gen in c.generators for i in gen.ifs]
+        return (norm(_Ph().visit(copy.deepcopy(src[0].value))) if src else None, sorted(set(pred)))
     sh, sr = shape(hdr), shape(row)
     inst = "header and data rows: same tag sequence and omission predicate"
-    if sh[0] is not None and sh == sr and "self.tags" in sh[0] and ".archive()" in sh[0] and sh[1] == ["val is not None"]:
+    if sh[0] is not None and sh == sr and "self.tags" in sh[0] and ".archive()" in sh[0] and sh[1] == ["_ is not None"]:
         ctx.ok("R39b", inst, {"rule": "R39b", "source": sh[0], "predicate": sh[1]})
     else:
         ctx.fail("R39b", row, row.node, inst, f"header uses {sh}, rows use {sr}: a data row can have other columns than the header")
